@@ -141,7 +141,7 @@ func cmdCheck(args []string) {
 	}
 	for _, want := range cfg.Functions {
 		found := false
-		if strings.HasSuffix(want, ":*") {
+		if strings.HasSuffix(want, ":*") && want != "contracts:*" {
 			pkg := strings.TrimSuffix(want, ":*")
 			for n, f := range sh.funcs {
 				top := f
@@ -156,7 +156,7 @@ func cmdCheck(args []string) {
 			}
 		} else if want == "contracts:*" {
 			for n := range sh.specs.Funcs {
-				if f, ok := sh.funcs[n]; ok && len(f.Blocks) > 0 && !excluded(n) && !seen[f] {
+				if f, ok := sh.funcs[n]; ok && len(f.Blocks) > 0 && !excluded(n) && !seen[f] && (f.Parent() == nil || sh.specs.Funcs[n].Attrs["modular"]) {
 					fns = append(fns, f)
 					seen[f] = true
 				}
